@@ -282,6 +282,12 @@ def mk(m, syms, meta):
 
 # ------------------------------------------------------------------ replay
 def replay_fn(c):
+    if "kind" not in c and "via" in c:
+        from . import c05
+        return c05.replay_fn(c)
+    if "kind" not in c:
+        from . import c04
+        return c04.replay_fn(c)
     ak = loader.real_auditok()
     import auditok.core as rcore
     if c["kind"] == "kernel":
@@ -445,6 +451,14 @@ def run(rep):
     from . import c04
     N = 5 if rep.tier == "quick" else 8
     tok.run_bmc(rep, core, "burst-e2e", N, (0, 4) if rep.tier == "quick" else tok.MODES, (False,), c04.oblig, c04.replay_fn)
+    # ... "subject only to the remainder rule and a shorter final window at end of stream": the regions split() finally yields
+    # (after whatever it does to the tokens) for inputs with a partial last window, strict and non-strict
+    from . import c05
+    for mode in (2, 0) if rep.tier == "quick" else tok.MODES:
+        hn = "regions-e2e[K=3,mode=%d]" % mode
+        ex = explore(c05.harness(L, 1, 1, 10, 3, mode, "function"))
+        rep.add_exploration(hn, ex)
+        tok.handle_cex(rep, hn, ex, c05.replay_fn, ideal=True)
     for inp in ("bytes", "reader"):
         ex = explore(wiring_harness(L, inp))
         rep.add_exploration("wiring[%s]" % inp, ex)
